@@ -639,6 +639,9 @@ impl<T> MethodMatcher<T> {
 
 // ---- C17 for the method layer
 pub assume_specification [<std::string::String as PartialEq<str>>::eq] (a: &std::string::String, b: &str) -> (r: bool) ensures r == (a@ == b@);
+// ASCII-case-insensitive comparison, should a layer use it: equality of an uninterpreted fold (the fold of equal strings is equal; nothing else is known)
+pub uninterp spec fn ascii_fold(s: Seq<char>) -> Seq<char>;
+pub assume_specification [str::eq_ignore_ascii_case] (a: &str, b: &str) -> (r: bool) ensures r == (ascii_fold(a@) == ascii_fold(b@));
 pub type MethItem<'a, T> = (&'a String, &'a SubHeader<T>);
 pub open spec fn meth_contrib<T>(rem: Seq<MethItem<T>>, n: int, m: Seq<char>, request: Request, x: RouteRef<T>) -> bool {
     exists|i: int| 0 <= i < n && (*#[trigger] rem[i].0)@ == m && (*rem[i].1).answer(request).count(x) > 0
